@@ -18,7 +18,7 @@ if $GO test -vet=off -count=1 ./... > /tmp/wt/v-$id.tests 2>&1; then res "existi
   # m.TestTable is known flaky on the pinned tree; retry once
   if $GO test -vet=off -count=1 ./... > /tmp/wt/v-$id.tests 2>&1; then res "existing tests: PASS (second run)"; else res "existing tests: FAIL"; tail -5 /tmp/wt/v-$id.tests | tee -a "$out/verify.log"; fi; fi
 demo=$(ls "$out"/*_test.go | head -1)
-cp "$demo" "$v/$dest/zz_seed_demo_test.go"
+mkdir -p "$v/$dest"; cp "$demo" "$v/$dest/zz_seed_demo_test.go"
 if $GO test -vet=off -count=1 "$@" ./$dest/ > /tmp/wt/v-$id.demo1 2>&1; then res "demo with change: PASS (unexpected)"; else res "demo with change: FAIL (expected)"; fi
 git apply -R "$out/patch.diff"
 if $GO test -vet=off -count=1 "$@" ./$dest/ > /tmp/wt/v-$id.demo2 2>&1; then res "demo without change: PASS (expected)"; else res "demo without change: FAIL (unexpected)"; tail -5 /tmp/wt/v-$id.demo2; fi
